@@ -62,6 +62,7 @@ func (s *defaultSender) updateWindow(add uint32) {
 		return
 	}
 	prevWindow := s.currentWindow.Add(add) - add
+	verifYield("sender.update.afterAdd")
 	if prevWindow == 0 {
 		select {
 		case s.windowUpdates <- struct{}{}:
@@ -81,9 +82,11 @@ func (s *defaultSender) send(data []byte) error {
 	first := true
 	for {
 		windowSz := s.currentWindow.Load()
+		verifYield("sender.afterLoad")
 
 		if windowSz == 0 {
 			// must wait for window size update before we can send more
+			verifYield("sender.beforeWait")
 			select {
 			case <-s.windowUpdates:
 			case <-s.ctx.Done():
@@ -99,11 +102,13 @@ func (s *defaultSender) send(data []byte) error {
 		if chunkSz > chunkMax {
 			chunkSz = chunkMax
 		}
+		verifYield("sender.beforeCAS")
 		if !s.currentWindow.CompareAndSwap(windowSz, windowSz-chunkSz) {
 			continue
 		}
 
 		last := chunkSz == uint32(len(data))
+		verifYield("sender.beforeSendFunc")
 		if err := s.sendFunc(data[:chunkSz], size, first); err != nil {
 			return err
 		}
@@ -195,6 +200,7 @@ func (r *defaultReceiver[T]) dequeue() (T, bool) {
 		// TODO: Support minimum update size, so we can batch
 		//       updates and send fewer messages over the network.
 		if windowUpdate > 0 {
+			verifYield("receiver.dequeue.beforeCredit")
 			r.updateWindow(uint32(windowUpdate))
 		}
 	}()
